@@ -146,7 +146,7 @@ Fixpoint nt_run_restarting (f : ntimed) (ops : list nop) : list Z :=
    the magnitudes involved; stated for one-way differences below 2^62 ns *)
 Definition raw_tol (s : sample) : Z := 2 + (Z.abs (lo_ns s) + Z.abs (hi_ns s)) / 2^50.
 Definition raw_close (s : sample) (obs : Z) : bool :=
-  if (Z.abs (lo_ns s) <=? 2^62) && (Z.abs (hi_ns s) <=? 2^62) then
+  if (Z.abs (lo_ns s) <? 2^62) && (Z.abs (hi_ns s) <? 2^62) then
     let x := raw_offset s in
     (Z.abs (obs - x) <=? raw_tol s)
     && (if raw_tol s <? x then 0 <? obs else true)
